@@ -8,7 +8,8 @@ Open Scope Z_scope.
 
 Record wcfg := mkCfg { w_rel : bool; w_fit : bool; w_w : option Q; w_h : option Q }.
 
-(* node kinds: 1 TEXT, 2 STYLE, 3 BREAK (CaptionNode.TEXT/STYLE/BREAK); every node carries a layout_info *)
+(* node kinds: 1 TEXT, 2 STYLE whose content yields tags/attributes (italics, bold, underline), 3 BREAK,
+   4 STYLE with empty content; every node carries a layout_info *)
 Record nnode := mkNode { n_kind : Z; n_layout : option layout }.
 Record ncap := mkNcap { nc_layout : option layout; nc_nodes : list nnode }.
 Record nlang := mkNlang { nl_layout : option layout; nl_caps : list ncap }.
@@ -26,9 +27,10 @@ Definition raf_node (c : wcfg) (n : nnode) : result nnode :=
 Definition raf_cap (c : wcfg) (cp : ncap) : result ncap :=
   do l <- raf c (nc_layout cp); do ns <- res_map (raf_node c) (nc_nodes cp); Ok (mkNcap l ns).
 
-(* DFXPWriter.write after `fix: relativize the language-level layout`: the language-level layout is relativized
-   (not fitted: the pinned test_empty_cue fixes the unfitted <div> region), captions and nodes are relativized and fitted;
-   the set-level layout is never turned into a region and is left alone *)
+(* DFXPWriter.write after `fix: DFXPWriter left a language-level layout in px (or other absolute units) unrelativized`:
+   the language-level layout is relativized (not fitted: the pinned test_empty_cue fixes the unfitted <div> region),
+   captions and nodes are relativized and fitted; the set-level layout never becomes a region and is left alone -
+   except with write_inline_positioning (dfxp_transform_inline below), where it reaches the document as inline attributes *)
 Definition rel_only (c : wcfg) (o : option layout) : result (option layout) :=
   match o with
   | Some l => if layout_truthy l && w_rel c then do r <- layout_as_pct l (w_w c) (w_h c); Ok (Some r) else Ok o
@@ -39,6 +41,12 @@ Definition dfxp_lang (c : wcfg) (lg : nlang) : result nlang :=
   do l <- rel_only c (nl_layout lg); do cs <- res_map (raf_cap c) (nl_caps lg); Ok (mkNlang l cs).
 Definition dfxp_transform (c : wcfg) (s : nset) : result nset :=
   do ls <- res_map (dfxp_lang c) (ns_langs s); Ok (mkNset (ns_layout s) ls).
+
+(* with write_inline_positioning=True (after `fix: DFXPWriter(write_inline_positioning=True) wrote the absolute lengths of
+   the set-level layout inline`): the set-level layout is relativized first *)
+Definition dfxp_transform_inline (c : wcfg) (s : nset) : result nset :=
+  do g <- rel_only c (ns_layout s);
+  do ls <- res_map (dfxp_lang c) (ns_langs s); Ok (mkNset g ls).
 
 (* the unrepaired code (kept for the _refuted theorem): language-level layouts untouched *)
 Definition dfxp_lang_prefix (c : wcfg) (lg : nlang) : result nlang :=
@@ -143,7 +151,8 @@ Fixpoint vtt_groups_aux (nodes : list nnode) (has_s : bool) (cur : option layout
         then cur :: vtt_groups_aux t true (n_layout n)
         else vtt_groups_aux t true (n_layout n)
       else if n_kind n =? 3 then vtt_groups_aux t true cur      (* a break always appends to s *)
-      else vtt_groups_aux t has_s cur                            (* style nodes: s may stay empty; kept as is *)
+      else if n_kind n =? 2 then vtt_groups_aux t true cur      (* a style node with italics/bold/underline appends its tag *)
+      else vtt_groups_aux t has_s cur                            (* a style node with empty content appends nothing *)
   end.
 Definition vtt_groups (nodes : list nnode) : list (option layout) := vtt_groups_aux nodes false None.
 
